@@ -10,7 +10,7 @@ pub struct Witness {
 }
 
 fn plan(metrics: Vec<Metric>, group_by: Option<Vec<usize>>, bucket: Option<Gran>, tf: usize, width: usize) -> PlanSpec {
-    PlanSpec { metrics, group_by, bucket, tf, width }
+    PlanSpec { metrics, group_by, bucket, tf, width, limit: None, offset: None }
 }
 fn s(x: &str) -> Sc {
     Sc::Str(x.into())
